@@ -280,7 +280,7 @@ def truncateBytes (val : List Nat) (length : Nat) (endS : List Nat) : Res (List 
   | none => .ok val
 
 /-- One `next()` of `ForLoopIterator::String`: `none` when exhausted, else the bytes of the item
-and the new `current_pos`. (`remaining` only feeds `size_hint` and is not modelled.) -/
+and the new `current_pos`. (`remaining` is added by `strIterNextR` below.) -/
 def strIterNext (content : List Nat) (currentPos : Nat) : Res (Option (List Nat × Nat)) :=
   if currentPos ≥ content.length then .ok none
   else
@@ -297,5 +297,76 @@ def strIterAll (content : List Nat) : Nat → Nat → List (List Nat) → Res (L
       match r with
       | none => .ok acc
       | some (item, pos') => strIterAll content f pos' (acc ++ [item])
+
+/-! ### `ForLoop`: what `loop.index`, `loop.index0`, `loop.first`, `loop.last`, `loop.length` show -/
+
+/-- `struct Loop` of for_loop.rs. -/
+structure LoopData where
+  index0 : Nat
+  first : Bool
+  last : Bool
+  length : Nat
+  deriving Repr, DecidableEq
+
+/-- `Loop::index`. -/
+def LoopData.index (l : LoopData) : Nat := l.index0 + 1
+
+/-- `ForLoop::new`: `length = iterator.size_hint().1.unwrap_or(0)`, `last: length == 1`. -/
+def loopInit (length : Nat) : LoopData := ⟨0, true, length == 1, length⟩
+
+/-- `Loop::advance`. -/
+def LoopData.advance (l : LoopData) : LoopData :=
+  ⟨l.index0 + 1, false, (l.index0 + 1) + 1 == l.length, l.length⟩
+
+/-- The `Iterate` instruction over an iterator whose `size_hint` is exact (`Array`, `Bytes`,
+sorted `Map` pairs: `len - index`): `is_over()` is `remaining == 0`; `advance()` takes the next
+item and, from the second pass on (`end_ip != 0`), calls `Loop::advance`. Returns the loop data
+the body sees at each pass. -/
+def forLoopRows : Nat → Nat → LoopData → Bool → List LoopData → Res (List LoopData)
+  | 0, _, _, _, _ => .fuel
+  | f + 1, remaining, ld, started, acc =>
+    if remaining = 0 then .ok acc
+    else
+      let ld' := if started then ld.advance else ld
+      forLoopRows f (remaining - 1) ld' true (acc ++ [ld'])
+
+/-- The loop data of every pass for a container of `n` items. -/
+def loopRows (n : Nat) : Res (List LoopData) := forLoopRows (n + 1) n (loopInit n) false []
+
+/-- `str::chars().count()`: counts the bytes that are not continuation bytes. -/
+def charsCount (bs : List Nat) : Nat :=
+  (bs.filter fun b => !(decide (0x80 ≤ b) && decide (b < 0xC0))).length
+
+/-- `ForLoopIterator::String::next` with its `remaining` counter: `None` at the end, else
+`*remaining -= 1` (an overflow panic if it were 0), then the item as in `strIterNext`. -/
+def strIterNextR (content : List Nat) (currentPos remaining : Nat) :
+    Res (Option (List Nat × Nat × Nat)) :=
+  if currentPos ≥ content.length then .ok none
+  else if remaining = 0 then .panic "vm/for_loop.rs:64 *remaining -= 1"
+  else (strIterNext content currentPos).map fun r =>
+    r.map fun (item, pos') => (item, pos', remaining - 1)
+
+/-- A `for` loop over a string as the VM runs it: `create_string_iterator` sets
+`remaining = content.chars().count()`, `ForLoop::new` takes `size_hint().1 = remaining` as the
+loop length, `Iterate` leaves when `size_hint().0 = remaining` is 0, otherwise `advance()`.
+Returns (item bytes, loop data) per pass. If `next()` answered `None` while `remaining > 0`
+the engine would run the body again on the stale values, for ever: here that ends in `.fuel`. -/
+def strForLoop (content : List Nat) :
+    Nat → Nat → Nat → LoopData → Bool → List (List Nat × LoopData) → Res (List (List Nat × LoopData))
+  | 0, _, _, _, _, _ => .fuel
+  | f + 1, pos, remaining, ld, started, acc =>
+    if remaining = 0 then .ok acc
+    else
+      (strIterNextR content pos remaining).bind fun r =>
+        match r with
+        | none => strForLoop content f pos remaining ld true (acc ++ acc.getLast?.toList)
+        | some (item, pos', rem') =>
+          let ld' := if started then ld.advance else ld
+          strForLoop content f pos' rem' ld' true (acc ++ [(item, ld')])
+
+/-- The whole string loop with the fuel that suffices (`chars + 1` passes). -/
+def strFor (content : List Nat) : Res (List (List Nat × LoopData)) :=
+  strForLoop content (charsCount content + 1) 0 (charsCount content) (loopInit (charsCount content))
+    false []
 
 end Tera.Index
